@@ -60,7 +60,7 @@ def check_specs(report):
         loops = [n for n in ast.walk(fn) if isinstance(n, ast.For)]
         its = [ast.unparse(l.iter) for l in loops]
         r1.instance(its)
-        r1.check(len(loops) == 3 and its[0].endswith(".services.items()") and its[1].endswith(".clients.items()") and its[2].endswith(".rpcs.items()"), p, fn.lineno, str(its),
+        r1.check(len(loops) == 3 and its[0].endswith(".services.items()") and its[1].endswith(".clients.items()") and its[2].endswith((".rpcs.items()", ".rpcs", ".rpcs.keys()")), p, fn.lineno, str(its),
                  "one spec per service x client kind x rpc of gapic_metadata (dict keys: unique by construction)")
         targets = {ast.unparse(loops[i].target): i for i in range(len(loops))}
         r1.check(any(svc in t for t in targets) and any(rpc in t for t in targets), p, fn.lineno, f"tag components {svc}, {rpc}", "service and rpc come from the loop keys")
